@@ -20,9 +20,13 @@ def hdrNat (hdr : List String) (key : String) (dflt : Nat) : Nat :=
 def initR (hdr : List String) : RState :=
   let mode := (hdr.filterMap (fun h => if h.startsWith "mode=" then some (h.drop 5).toString else none)).head?.getD "mix"
   let dw : Nat := if mode == "comp" then 0 else 1
-  { c := { bits := hdrNat hdr "bits" 0, words := hdrNat hdr "P" 1, nthr := 16,
-           pushWakes := hdrNat hdr "pushwake" dw == 1, popWakes := hdrNat hdr "popwake" dw == 1 },
-    y := Sys.init }
+  let c : Cfg := { bits := hdrNat hdr "bits" 0, words := hdrNat hdr "P" 1, nthr := 16,
+                   pushWakes := hdrNat hdr "pushwake" dw == 1, popWakes := hdrNat hdr "popwake" dw == 1 }
+  -- `base=<round>`: the harness preset the queue to the state after `round` complete rounds of the ring
+  -- (dispensers at round·capacity, every slot at version 2·round) to exercise the 16-bit version wrap
+  let round := hdrNat hdr "base" 0
+  let s0 : State := { State.init with pushIdx := round * c.cap, popIdx := round * c.cap, ver := fun _ => 2 * round }
+  { c := c, y := { Sys.init with s := s0 } }
 
 def b? (s : String) : Option Bool := if s == "1" then some true else if s == "0" then some false else none
 
